@@ -1477,13 +1477,34 @@ def stream_settrace(ctx, r):
                 lines.append("settrace %s %s %s" % (w, tok(u, "b", "s"), tok(v, "b", "s")))
     return [Case(lines[i:i + 500], "settrace") for i in range(0, len(lines), 500)]
 
+def stream_parsetrace(ctx, r):
+    """the calls a parse makes on its url_serializer, for canonical inputs (the href of parsed URLs) with a host and a
+    list path: the sequence emit_ops of C01_emit_repr, observed on the real parser through a logging subclass"""
+    drv, err = model.ensure_driver(ctx.bd, "pinned")
+    if drv is None:
+        return []
+    urls = list(SER_URLS) + [u for u in START_URLS] + gens.TRAPS + [gens.gen_url(r) for _ in range(scale(ctx, 600, 6000))]
+    outs = corr.run_cases(drv, [Case(["parse 0 %s -" % tok(u, "b", "s"), "get 0"]) for u in urls], 600)
+    hrefs = set()
+    for o in outs:
+        if o and "valid=1" in o[-1]:
+            h = field(o[-1], "href")
+            if h and h != "-":
+                hrefs.add(h)
+    lines = ["parsetrace b:%s" % h for h in sorted(hrefs)]
+    # non-canonical inputs too: both sides say what they saw (dot segments give shorten_path calls the model does not predict: skipped)
+    return [Case(lines[i:i + 500], "parsetrace") for i in range(0, len(lines), 500)]
+
 def oracle_settrace(cmd, line):
+    if cmd.startswith("parsetrace") and ("rec=0" in line or "glue=0" in line or "SHRUNK" in line):
+        return "parse-call-sequence:" + ("record" if "rec=0" in line else "glue")
     if cmd.startswith("settrace") and ("rec=0" in line or "glue=0" in line or "SHRUNK" in line):
         return "setter-call-sequence:" + ("record" if "rec=0" in line else "glue")
     return None
 
 STREAMS = {
     "settrace": (stream_settrace, oracle_settrace),
+    "parsetrace": (stream_parsetrace, oracle_settrace),
     "usp_pred": (stream_usp_pred, oracle_state),
     "aliasparse": (stream_aliasparse, oracle_aliasparse),
     "cpset": (stream_cpset, oracle_cpset),
@@ -1517,7 +1538,7 @@ def run(ctx, P):
         r = random.Random(ctx.seed * 1000003 + hash(name) % 1000)
         r = random.Random("%d/%s" % (ctx.seed, name))
         cases = build(ctx, r)
-        for cfg, variant in [(c, v) for c in (["cpp17"] if name == "cpset" else P.get("configs", ["pinned"])) for v in (["spec"] if name in ("serops", "buffer", "cpset", "usp_pred", "settrace") else P.get("model_variants", ["spec"]))]:
+        for cfg, variant in [(c, v) for c in (["cpp17"] if name == "cpset" else P.get("configs", ["pinned"])) for v in (["spec"] if name in ("serops", "buffer", "cpset", "usp_pred", "settrace", "parsetrace") else P.get("model_variants", ["spec"]))]:
             out = corr.compare_stream(ctx, name, cases, cfg, oracle, known, variant=variant, timeout=(40 if name == "cpset" else 900), impl_only=(name == "usp_pred"))
             res["violations"] += out["violations"]
             for k in out["known"]:
